@@ -67,21 +67,22 @@ def gen_case(ctx, g, rng, craft=False):
         max_post = int(rng.integers(1, 60))        # keeps the linear-parameter stage cheap
     kw["max_posterior_samples"] = max_post
     n_prior, shuffle, pool, n_batches = None, False, None, None
-    if path != "inmem":
-        r = rng.random()
-        if r < 0.35:
-            n_prior = None
-        elif r < 0.45:
-            n_prior = N
-        elif r < 0.92:
-            n_prior = int(rng.integers(1, N + 1))
-        else:
-            n_prior = N + int(rng.integers(1, 4))
-        shuffle = bool(rng.random() < 0.5)
-        if rng.random() < 0.5:
-            pool = rec.RecPool(size=int(rng.integers(1, 5)))
-            n_batches = None if rng.random() < 0.5 else int(rng.integers(1, 7))
-        kw.update(n_prior_samples=n_prior, randomize_prior_order=shuffle, n_batches=n_batches)
+    # n_prior_samples / randomize_prior_order are options of rejection_sample on EVERY path (the property quantifies
+    # over their product with in-memory and file-cache paths); only pools and batching are specific to the cache paths
+    r = rng.random()
+    if r < 0.35:
+        n_prior = None
+    elif r < 0.45:
+        n_prior = N
+    elif r < 0.92:
+        n_prior = int(rng.integers(1, N + 1))
+    else:
+        n_prior = N + int(rng.integers(1, 4))
+    shuffle = bool(rng.random() < 0.5)
+    if path != "inmem" and rng.random() < 0.5:
+        pool = rec.RecPool(size=int(rng.integers(1, 5)))
+        n_batches = None if rng.random() < 0.5 else int(rng.integers(1, 7))
+    kw.update(n_prior_samples=n_prior, randomize_prior_order=shuffle, n_batches=n_batches)
     if rng.random() < 0.3:
         kw["return_all_logprobs"] = True
     kw["in_memory"] = path == "inmem"
